@@ -848,7 +848,8 @@ class Pv(Sub):
                     yield ['v', r, n, pay, fv, t]
         for r, n, pay, fv, t in ((1, 0.0001, -100, None, None), (1, 1e-10, -100, None, None), (-0.5, 0.001, -100, 0, 1), (0.05, 0.5, -100, None, None),
                                  (0.1, 1e-70, 1, None, None), (0.1, 1e-50, 1, None, None), (0.05 / 12, 1e-49, 1000, 0, 1), (0.1, -1e-200, -5, None, None),
-                                 (2.0 ** -30, 1e-60, 7, 0, 1)):
+                                 (2.0 ** -30, 1e-60, 7, 0, 1), (1e-70, 1e-70, 1, None, None), (-1e-90, 3e-80, -250, None, None), (1e-50, 1e-55, 3, 0, 1),
+                                 (1e-200, 1e-100, -1, None, None)):
             yield ['v', r, n, pay, fv, t]
         # at rate 0 the equation is linear: the solution is returned wherever it is a number, also when payment * periods alone is not
         for n, pay, fv in ((1.9, 1e308, -1e308), (2, 1.5e308, -1.7e308), (0.5, -1.7e308, 1e308), (3, 1e308, -1.7e308)):
